@@ -156,6 +156,12 @@ def tlc(spec_dir, module, cfg, consts=None, workers=8, timeout=600, edges=True, 
     """Run TLC on spec_dir/module.tla with spec_dir/cfg(.in) in a scratch copy.  Lines printed by the
     spec as "EDGE {json}" / "INIT {json}" are collected (the labelled state graph)."""
     work = scratch("tlc")
+    try:
+        workers = min(int(workers), int(os.environ.get("VERIF_MAX_WORKERS", "16")))
+    except ValueError:
+        pass
+    if os.environ.get("VERIF_MAX_HEAP"):
+        heap = os.environ["VERIF_MAX_HEAP"]
     for fn in os.listdir(spec_dir):
         if fn.endswith(".tla"):
             src = open(os.path.join(spec_dir, fn)).read()
